@@ -507,7 +507,7 @@ def run_children(jobs, tag, per_job_timeout=120):
 # X1: the real normaliser
 
 
-def x1_cases(rng, n, extra):
+def x1_cases(rng, n, extra, cap_alts=400):
     from nemoguardrails.colang.v2_x.lang.colang_ast import Spec, SpecType
     from nemoguardrails.colang.v2_x.lang import expansion as X
 
@@ -539,7 +539,7 @@ def x1_cases(rng, n, extra):
         tries += 1
         f = rand_tree(rng, rng.choice((1, 2, 3, 3, 4, 4, 5, 5)), rng.choice((2, 3, 4, 6, 8)))
         alts, members = py_nf_count(f)
-        if alts > 400 or members > 4000:
+        if alts > cap_alts or members > 10 * cap_alts:
             continue
         cases.append(f)
     res = []
@@ -631,9 +631,9 @@ def run(tier, seed, replay=None):
     extra = [from_json(c["formula"]) for c in corpus if c.get("kind") == "norm"]
     if rep is not None:
         extra = [from_json(rep["formula"])] if rep.get("kind") == "norm" else []
-    n1 = 0 if rep is not None else (20000 if not thorough else 100000)
+    n1 = 0 if rep is not None else (6000 if not thorough else 60000)
     sys.path.insert(1, C.REPO)
-    x1 = x1_cases(rng, n1, extra)
+    x1 = x1_cases(rng, n1, extra, cap_alts=400 if thorough else 120)
     terms1, kept1 = [], []
     seen = set()
     x1_nontrivial = 0
@@ -686,7 +686,11 @@ def run(tier, seed, replay=None):
                     if k == 1 and kind != "when":
                         # a single Spec is not a group for match/await; `when <flow>` still goes through the group code
                         continue
-                    add_job(kind, f, orders(range(k), fi % k), f"all-shapes-{k}")
+                    if k == 4 and kind != "match" and not thorough:
+                        # quick tier: every shape, a seeded sample of 72 of the 360 orders (thorough: all)
+                        add_job(kind, f, orders(range(k), fi % k, limit=72, rng=rng), f"all-shapes-{k}-sampled-orders")
+                    else:
+                        add_job(kind, f, orders(range(k), fi % k), f"all-shapes-{k}")
         # groups in which one atom occurs twice (an atom shared by alternatives / members)
         shared = []
         for k in (3, 4):
@@ -696,7 +700,7 @@ def run(tier, seed, replay=None):
                     m[j] = i
                     ren = {a: n for n, a in enumerate(sorted(set(m)))}
                     shared.append(relabel(f, [ren[x] for x in m]))
-        n_sh = len(shared) if thorough else 90
+        n_sh = len(shared) if thorough else 36
         for fi, f in enumerate(rng.sample(shared, min(n_sh, len(shared)))):
             ats = sorted(set(atoms_of(f)))
             for kind in KINDS:
@@ -823,7 +827,7 @@ def run(tier, seed, replay=None):
                    + [{"stmt": k, "group": to_json(f), "events": o[0][0], "done_step": o[0][1]} for k, f, o in kept2[len(kept2) // 2: len(kept2) // 2 + 3] if o],
         "input_distribution": {
             "x1_cases": len(terms1), "x1_results": x1_hist, "x1_distinct_nontrivial": x1_nontrivial,
-            "x1_generator": "depth<=5, fan-out 0..4 (0/1 rare), 2..8 atoms with repetition, DNF <= 400 alternatives",
+            "x1_generator": "depth<=5, fan-out 0..4 (0/1 rare), 2..8 atoms with repetition, DNF <= %d alternatives" % (400 if thorough else 120),
             "x2_jobs": len(jobs), "x2_runs": n_runs, "x2_runs_by_origin": origins,
             "x2_kinds": {k: sum(len(j["seqs"]) for j in jobs if j["kind"] == k) for k in KINDS},
             "x3_expansions_compared": len(terms3),
